@@ -160,6 +160,7 @@ func checkC01(c *harness.Check) {
 	WalkFlat(c, corpus.CornerFamily, classify, nil)
 	WalkFlat(c, corpus.PromotionFamily, classify, nil)
 	WalkFlat(c, corpus.PinFamily, visit, nil)
+	WalkFlat(c, corpus.BackRankFamily, classify, nil)
 	c.Sample(map[string]any{"family": "castling-under-attack", "example": "r3k2r/8/8/8/8/8/6n1/R3K2R w KQ - 0 1"})
 
 	// implementation perft against the published numbers
